@@ -8,6 +8,7 @@ import (
 
 func TestReplay(t *testing.T) {
 	verif.ReplayMain(map[string]func(){
-		"HarnessWSCorrelation": HarnessWSCorrelation,
+		"HarnessCancelDuringTraffic": HarnessCancelDuringTraffic,
+		"HarnessWSCorrelation":       HarnessWSCorrelation,
 	})
 }
